@@ -386,7 +386,7 @@ def install(E):
         A = lc.env['F_set'].t
         x = X()
         r = z3.Int('r!gf')
-        return [('acc_is_new', z3.And(A >= c.h0.alloc, A < scc.h0.alloc)),
+        return [('acc_is_new', z3.And(A >= c.h0.alloc, A < he.alloc, z3.Not(yR[A]))),
                 ('acc_within_states', z3.ForAll([x], z3.Implies(h.set_of(A)[x], V(c.h0, c.self.t)[x]))),
                 ('components_unchanged', z3.ForAll([r], z3.Implies(yR[r], h.set_of(r) == hS.set_of(r)))),
                 ('alloc', h.alloc >= he.alloc)] \
